@@ -130,6 +130,14 @@ def shard(ctx: Ctx, fmt: str):
 
     def ev(case):
         return evaluate(ctx, case["doc"], fmt, part, {"opts": case["opts"]} if case.get("opts") else None)
+    # deterministic part: feature-rich documents x every combination of the renderer's options
+    fixed = 0
+    for d in model.rich_sample(prof, 4, key=fmt):
+        for combo in model.option_combos(prof):
+            if len(part.violations) < 3:
+                part.violations += [v for v in ev({"doc": d, "opts": {k: v for k, v in combo.items()}}) if v.signature not in {x.signature for x in part.violations}]
+            fixed += 1
+    part.exhaustive[f"{fmt}: 4 feature-rich documents x renderer option combinations"] = fixed
     hyp_search(ctx, f"c02-{fmt}", cases, ev, n, part)
     return part
 
